@@ -1,6 +1,7 @@
 (* C13 — lemmas.  Part 1: the invariant of the sequential model, by induction
-   over histories.  Part 2: the abstract lock machine and the compilation of
-   call graphs into it. *)
+   over histories.  Part 1b: digest passes of several threads overlapping each
+   other and every other call, split at their digester calls.  Part 2: the
+   abstract lock machine and the compilation of call graphs into it. *)
 From Coq Require Import ZArith List Bool Lia Permutation String Arith.
 From Coq Require Import ZifyBool.
 From Verif Require Import C13.Model.
@@ -118,6 +119,14 @@ Lemma Inv_same : forall cfg live s s',
 Proof.
   intros cfg live s s' Ha Hn Hd Ht Hb Hf [P1 P2 P3 P4 P5 P6 P7 P8 P9].
   constructor; unfold fated, nfate, with_fate, binok in *; rewrite ?Ha, ?Hn, ?Hd, ?Ht, ?Hb, ?Hf; assumption.
+Qed.
+
+(* ... and [live] only up to order *)
+Lemma Inv_live_perm : forall cfg live live' s,
+  Permutation live live' -> Inv cfg live s -> Inv cfg live' s.
+Proof.
+  intros cfg live live' s HP [P1 P2 P3 P4 P5 P6 P7 P8 P9]. constructor; try assumption.
+  eapply Permutation_trans; [exact P1|]. apply Permutation_app_tail. exact HP.
 Qed.
 
 Lemma binok_mono : forall s s' b,
@@ -268,12 +277,15 @@ Proof.
   cbn [queue set_queue]. rewrite emerg_loop_queue. reflexivity.
 Qed.
 
-Lemma emergency_inv : forall cfg s, Inv cfg (queue s) s -> Inv cfg (queue (emergency cfg s)) (emergency cfg s).
+(* [ex]: items that are live but not queued - taken by a digest pass of another
+   thread that has not processed them yet (Part 1b); [] in a sequential history *)
+Lemma emergency_inv : forall cfg s ex,
+  Inv cfg (queue s ++ ex) s -> Inv cfg (queue (emergency cfg s) ++ ex) (emergency cfg s).
 Proof.
-  intros cfg s I. rewrite emergency_queue. unfold emergency.
+  intros cfg s ex I. rewrite emergency_queue. unfold emergency.
   destruct (Z.to_nat (Z.of_nat (List.length (queue s)) / 2)) as [|n] eqn:E; [exact I|].
   apply (Inv_same cfg _ (emerg_loop cfg (firstn (S n) (queue s)) s)); [reflexivity..|].
-  apply emerg_loop_inv. rewrite firstn_skipn. exact I.
+  apply emerg_loop_inv. rewrite app_assoc, firstn_skipn. exact I.
 Qed.
 
 (* ---- digest ----------------------------------------------------------- *)
@@ -350,18 +362,18 @@ Proof.
   rewrite Hq. reflexivity.
 Qed.
 
-Lemma digest_inv : forall cfg auto k s,
-  Inv cfg (queue s) s ->
-  Inv cfg (queue (fst (digest cfg auto k s))) (fst (digest cfg auto k s)).
+Lemma digest_inv : forall cfg auto k s ex,
+  Inv cfg (queue s ++ ex) s ->
+  Inv cfg (queue (fst (digest cfg auto k s)) ++ ex) (fst (digest cfg auto k s)).
 Proof.
-  intros cfg auto k s I. rewrite digest_queue. unfold digest.
+  intros cfg auto k s ex I. rewrite digest_queue. unfold digest.
   destruct (take_split k (queue s)) as [Hsplit _].
   destruct (digest_loop cfg auto (to_process k (queue s)) (set_queue s (after_take k (queue s)))
                         (mkDres 0 [] [])) as [s1 r] eqn:D.
   cbn [fst].
-  assert (I0 : Inv cfg (to_process k (queue s) ++ after_take k (queue s))
+  assert (I0 : Inv cfg (to_process k (queue s) ++ (after_take k (queue s) ++ ex))
                    (set_queue s (after_take k (queue s)))).
-  { rewrite Hsplit. apply (Inv_same cfg _ s); [reflexivity..|exact I]. }
+  { rewrite app_assoc, Hsplit. apply (Inv_same cfg _ s); [reflexivity..|exact I]. }
   assert (B0 : binok (set_queue s (after_take k (queue s))) (d_recycled (mkDres 0 [] []))).
   { intros k0 v []. }
   destruct (digest_loop_inv _ _ _ _ _ _ _ _ D I0 B0) as (I1 & B1 & _).
@@ -376,21 +388,21 @@ Qed.
 Lemma lenZ_cons {A} : forall (x : A) l, lenZ (x :: l) = lenZ l + 1.
 Proof. intros; unfold lenZ; cbn [List.length]; lia. Qed.
 
-Lemma ingest_inv : forall cfg t c o s,
-  Inv cfg (queue s) s -> Inv cfg (queue (ingest cfg t c o s)) (ingest cfg t c o s).
+Lemma ingest_inv : forall cfg t c o s ex,
+  Inv cfg (queue s ++ ex) s -> Inv cfg (queue (ingest cfg t c o s) ++ ex) (ingest cfg t c o s).
 Proof.
-  intros cfg t c o s I. unfold ingest.
+  intros cfg t c o s ex I. unfold ingest.
   set (s1 := if max_queue cfg <=? qlen s then emergency cfg s else s).
-  assert (I1 : Inv cfg (queue s1) s1).
+  assert (I1 : Inv cfg (queue s1 ++ ex) s1).
   { unfold s1. destruct (max_queue cfg <=? qlen s); [apply emergency_inv|]; exact I. }
   clearbody s1. clear I s.
   set (it := mkItem (n_ingested s1) t c o).
   match goal with |- context [if _ then fst (digest _ _ _ ?S) else _] => set (s2 := S) end.
-  assert (I2 : Inv cfg (queue s2) s2).
+  assert (I2 : Inv cfg (queue s2 ++ ex) s2).
   { destruct I1 as [P1 P2 P3 P4 P5 P6 P7 P8 P9].
     constructor; unfold s2; cbn [queue g_all n_ingested n_digested toxlog bin g_fates];
       unfold fated, nfate, with_fate, binok in *; cbn [g_fates]; try assumption.
-    - rewrite <- app_assoc. cbn [app]. apply Permutation_cons_app. exact P1.
+    - rewrite <- !app_assoc. cbn [app]. apply Permutation_cons_app. rewrite <- app_assoc in P1. exact P1.
     - cbn [ids map]. constructor; [|exact P2]. intros Hin.
       apply in_map_iff in Hin. destruct Hin as (x & Hx & Hin).
       specialize (P3 _ Hin). cbn [it_id it] in Hx. lia.
@@ -416,17 +428,19 @@ Proof.
   reflexivity.
 Qed.
 
-Lemma autophagy_inv : forall cfg s,
-  Inv cfg (queue s) s ->
-  Inv cfg (queue (fst (autophagy cfg s))) (fst (autophagy cfg s)).
+Lemma autophagy_inv : forall cfg s ex,
+  Inv cfg (queue s ++ ex) s ->
+  Inv cfg (queue (fst (autophagy cfg s)) ++ ex) (fst (autophagy cfg s)).
 Proof.
-  intros cfg s [P1 P2 P3 P4 P5 P6 P7 P8 P9]. unfold autophagy. cbn [fst queue].
+  intros cfg s ex [P1 P2 P3 P4 P5 P6 P7 P8 P9]. unfold autophagy. cbn [fst queue].
   set (keep := filter (fresh cfg (now s)) (queue s)).
   set (gone := filter (fun it => negb (fresh cfg (now s) it)) (queue s)).
   constructor; cbn [g_all n_ingested n_digested toxlog bin g_fates]; try assumption.
   - unfold fated; cbn [g_fates]. rewrite map_app, map_map. cbn [fst]. rewrite map_id.
     eapply Permutation_trans; [exact P1|]. rewrite app_assoc.
-    apply Permutation_app_tail. apply filter_partition.
+    apply Permutation_app_tail.
+    eapply Permutation_trans; [apply Permutation_app_tail; apply (filter_partition (fresh cfg (now s)))|].
+    fold keep gone. rewrite <- !app_assoc. apply Permutation_app_head. apply Permutation_app_comm.
   - rewrite (nfate_autophagy Digested s gone), (nfate_autophagy EmergOk s gone); try discriminate; try reflexivity.
     exact P5.
   - intros i Hin. destruct (P7 _ Hin) as (it & f & H1 & H2). exists it, f.
@@ -453,18 +467,25 @@ Proof.
   - intros k v [].
 Qed.
 
+Lemma step_inv_fr : forall cfg s o ex,
+  Inv cfg (queue s ++ ex) s -> Inv cfg (queue (fst (step cfg s o)) ++ ex) (fst (step cfg s o)).
+Proof.
+  intros cfg s o ex I. destruct o; cbn [step].
+  - apply ingest_inv; exact I.
+  - apply ingest_inv; exact I.
+  - apply ingest_inv; exact I.
+  - pose proof (digest_inv cfg false k s ex I) as H.
+    destruct (digest cfg false k s) as [s' r]. exact H.
+  - pose proof (autophagy_inv cfg s ex I) as H.
+    destruct (autophagy cfg s) as [s' n]. exact H.
+  - cbn [fst]. apply (Inv_same cfg _ s); [reflexivity..|exact I].
+Qed.
+
 Lemma step_inv : forall cfg s o,
   Inv cfg (queue s) s -> Inv cfg (queue (fst (step cfg s o))) (fst (step cfg s o)).
 Proof.
-  intros cfg s o I. destruct o; cbn [step].
-  - apply ingest_inv; exact I.
-  - apply ingest_inv; exact I.
-  - apply ingest_inv; exact I.
-  - pose proof (digest_inv cfg false k s I) as H.
-    destruct (digest cfg false k s) as [s' r]. exact H.
-  - pose proof (autophagy_inv cfg s I) as H.
-    destruct (autophagy cfg s) as [s' n]. exact H.
-  - cbn [fst]. apply (Inv_same cfg _ s); [reflexivity..|exact I].
+  intros cfg s o I. rewrite <- (app_nil_r (queue (fst (step cfg s o)))).
+  apply step_inv_fr. rewrite app_nil_r. exact I.
 Qed.
 
 Lemma run_from_inv : forall cfg ops s,
@@ -665,6 +686,680 @@ Qed.
 
 Lemma step_total : forall cfg s o, exists s' r, step cfg s o = (s', r).
 Proof. intros cfg s o. destruct (step cfg s o) as [s' r]. eauto. Qed.
+
+(* ====================================================================== *)
+(* Part 1b: overlapping digest passes                                       *)
+
+(* ---- which fates a call adds ------------------------------------------ *)
+
+Lemma process_verdict : forall cfg it log, fst (process cfg it log) = verdict cfg it.
+Proof.
+  intros cfg it log. unfold verdict, process.
+  destruct (it_type it); try reflexivity. destruct (has_cb cfg); reflexivity.
+Qed.
+
+Lemma fate_item_fates : forall cfg fok fbad it s,
+  g_fates (fst (fate_item cfg fok fbad it s)) =
+    (it, match verdict cfg it with POk _ => fok | PRaise => fbad end) :: g_fates s /\
+  snd (fate_item cfg fok fbad it s) = verdict cfg it.
+Proof.
+  intros cfg fok fbad it s. unfold fate_item.
+  pose proof (process_verdict cfg it (toxlog s)) as V.
+  destruct (process cfg it (toxlog s)) as [pr log']. cbn [fst snd] in *. subst pr. split; reflexivity.
+Qed.
+
+(* fates are only ever added *)
+Definition norep (new : list (item * fate)) : Prop := Forall (fun p => snd p <> Reported) new.
+
+Definition grows (s s' : state) (new : list (item * fate)) : Prop := g_fates s' = new ++ g_fates s.
+
+Lemma norep_filter : forall new, norep new ->
+  filter (fun p : item * fate => fate_eqb (snd p) Reported) new = [].
+Proof.
+  induction new as [|[it f] new IH]; intros H; [reflexivity|].
+  inversion H as [|? ? Hf Hr]; subst. cbn [filter snd] in *.
+  destruct f; cbn [fate_eqb]; try (apply IH; exact Hr). exfalso; apply Hf; reflexivity.
+Qed.
+
+Lemma grows_rep_same : forall s s' new, grows s s' new -> norep new ->
+  with_fate Reported s' = with_fate Reported s.
+Proof.
+  intros s s' new G N. unfold with_fate. rewrite G, filter_app, (norep_filter _ N). reflexivity.
+Qed.
+
+Lemma grows_mono : forall s s' new x, grows s s' new -> In x (g_fates s) -> In x (g_fates s').
+Proof. intros s s' new x G H. rewrite G. apply in_or_app; right; exact H. Qed.
+
+Lemma emerg_loop_grows : forall cfg items s,
+  exists new, grows s (emerg_loop cfg items s) new /\ norep new.
+Proof.
+  induction items as [|it items IH]; intros s; cbn [emerg_loop].
+  - exists []. split; [reflexivity|constructor].
+  - destruct (IH (emerg_item cfg it s)) as (new & G & N).
+    destruct (fate_item_fates cfg EmergOk EmergFail it s) as [F _].
+    exists (new ++ [(it, match verdict cfg it with POk _ => EmergOk | PRaise => EmergFail end)]).
+    split.
+    + unfold grows in *. rewrite G. unfold emerg_item. rewrite F, <- app_assoc. reflexivity.
+    + apply Forall_app. split; [exact N|]. constructor; [|constructor].
+      cbn [snd]. destruct (verdict cfg it); discriminate.
+Qed.
+
+Lemma emergency_grows : forall cfg s, exists new, grows s (emergency cfg s) new /\ norep new.
+Proof.
+  intros cfg s. unfold emergency.
+  destruct (Z.to_nat (Z.of_nat (List.length (queue s)) / 2)) as [|n].
+  - exists []. split; [reflexivity|constructor].
+  - destruct (emerg_loop_grows cfg (firstn (S n) (queue s)) s) as (new & G & N).
+    exists new. split; [exact G|exact N].
+Qed.
+
+Definition dfate (cfg : config) (auto : bool) (it : item) : fate :=
+  if raises cfg it then (if auto then AutoDiscarded else Reported) else Digested.
+
+Definition count_ok (cfg : config) (l : list item) : Z :=
+  lenZ (filter (fun it => negb (raises cfg it)) l).
+
+Lemma digest_item_fates : forall cfg auto it s r s' r',
+  digest_item cfg auto it s r = (s', r') ->
+  g_fates s' = (it, dfate cfg auto it) :: g_fates s /\
+  d_disposed r' = d_disposed r + (if raises cfg it then 0 else 1) /\
+  d_errors r' = (if raises cfg it then [it_id it] else []) ++ d_errors r.
+Proof.
+  intros cfg auto it s r s' r' H. unfold digest_item in H.
+  destruct (fate_item_fates cfg Digested (if auto then AutoDiscarded else Reported) it s) as [F V].
+  destruct (fate_item cfg Digested (if auto then AutoDiscarded else Reported) it s) as [s1 pr].
+  cbn [fst snd] in *. subst pr. unfold dfate, raises.
+  destruct (verdict cfg it) as [ks|]; inversion H; subst; cbn [d_disposed d_errors app].
+  - split; [|split; [lia|reflexivity]]. destruct (nonempty ks); exact F.
+  - split; [exact F|split; [lia|reflexivity]].
+Qed.
+
+Lemma digest_loop_fates : forall cfg auto items s r s' r',
+  digest_loop cfg auto items s r = (s', r') ->
+  g_fates s' = rev (map (fun it => (it, dfate cfg auto it)) items) ++ g_fates s /\
+  d_disposed r' = d_disposed r + count_ok cfg items /\
+  d_errors r' = rev (ids (filter (raises cfg) items)) ++ d_errors r.
+Proof.
+  induction items as [|it items IH]; intros s r s' r' H; cbn [digest_loop] in H.
+  - inversion H; subst. unfold count_ok, lenZ. cbn. split; [reflexivity|split; [lia|reflexivity]].
+  - destruct (digest_item cfg auto it s r) as [s1 r1] eqn:D.
+    destruct (digest_item_fates _ _ _ _ _ _ _ D) as (F1 & D1 & E1).
+    destruct (IH _ _ _ _ H) as (F2 & D2 & E2).
+    split; [|split].
+    + rewrite F2, F1. cbn [map rev]. rewrite <- app_assoc. reflexivity.
+    + rewrite D2, D1. unfold count_ok, lenZ. cbn [filter].
+      destruct (raises cfg it); cbn [negb List.length]; lia.
+    + rewrite E2, E1. cbn [filter]. destruct (raises cfg it); cbn [ids map rev app]; [|reflexivity].
+      unfold ids. rewrite <- app_assoc. reflexivity.
+Qed.
+
+Lemma norep_dfate_auto : forall cfg items,
+  norep (rev (map (fun it => (it, dfate cfg true it)) items)).
+Proof.
+  intros cfg items. apply Forall_rev. apply Forall_forall. intros p Hp.
+  apply in_map_iff in Hp. destruct Hp as (it & <- & _). cbn [snd]. unfold dfate.
+  destruct (raises cfg it); discriminate.
+Qed.
+
+Lemma digest_grows : forall cfg auto k s,
+  let items := to_process k (queue s) in
+  let '(s', r) := digest cfg auto k s in
+  grows s s' (rev (map (fun it => (it, dfate cfg auto it)) items)) /\
+  d_disposed r = count_ok cfg items /\
+  d_errors r = rev (ids (filter (raises cfg) items)).
+Proof.
+  intros cfg auto k s items. unfold digest. fold items.
+  destruct (digest_loop cfg auto items (set_queue s (after_take k (queue s))) (mkDres 0 [] [])) as [s1 r] eqn:D.
+  destruct (digest_loop_fates _ _ _ _ _ _ _ D) as (F & Dd & E).
+  cbn [d_disposed d_errors] in *. rewrite app_nil_r in E.
+  split; [|split; [lia|exact E]]. unfold grows. cbn [g_fates set_bin]. exact F.
+Qed.
+
+Lemma ingest_grows : forall cfg t c o s, exists new, grows s (ingest cfg t c o s) new /\ norep new.
+Proof.
+  intros cfg t c o s. unfold ingest.
+  set (s1 := if max_queue cfg <=? qlen s then emergency cfg s else s).
+  assert (G1 : exists new, grows s s1 new /\ norep new).
+  { unfold s1. destruct (max_queue cfg <=? qlen s); [apply emergency_grows|].
+    exists []. split; [reflexivity|constructor]. }
+  destruct G1 as (n1 & G1 & N1).
+  match goal with |- context [if _ then fst (digest _ _ _ ?S) else _] => set (s2 := S) end.
+  assert (G2 : grows s s2 n1) by (unfold grows, s2; cbn [g_fates]; exact G1).
+  destruct (auto_thr cfg <=? qlen s2).
+  - pose proof (digest_grows cfg true (Some (qlen s2 / 2)) s2) as H. cbv zeta in H.
+    destruct (digest cfg true (Some (qlen s2 / 2)) s2) as [s3 r]. destruct H as (G3 & _). cbn [fst].
+    eexists. split.
+    + unfold grows in *. rewrite G3, G2, app_assoc. reflexivity.
+    + apply Forall_app. split; [apply norep_dfate_auto|exact N1].
+  - exists n1. split; assumption.
+Qed.
+
+Lemma autophagy_grows : forall cfg s, exists new, grows s (fst (autophagy cfg s)) new /\ norep new.
+Proof.
+  intros cfg s. unfold autophagy. cbn [fst].
+  eexists. split; [unfold grows; cbn [g_fates]; reflexivity|].
+  apply Forall_forall. intros p Hp. apply in_map_iff in Hp. destruct Hp as (it & <- & _). discriminate.
+Qed.
+
+(* ---- the list of open passes ------------------------------------------- *)
+
+Lemma find_pass_split : forall p l ps,
+  find_pass p l = Some ps ->
+  exists l1 l2, l = l1 ++ ps :: l2 /\
+    forall new, set_pass p new l = l1 ++ (match new with Some y => [y] | None => [] end) ++ l2.
+Proof.
+  induction l as [|x l IH]; intros ps H; cbn [find_pass] in H; [discriminate|].
+  destruct (p_id x =? p) eqn:E.
+  - inversion H; subst x. exists [], l. split; [reflexivity|].
+    intros new. cbn [set_pass]. rewrite E. destruct new; reflexivity.
+  - destruct (IH _ H) as (l1 & l2 & -> & S). exists (x :: l1), l2. split; [reflexivity|].
+    intros new. cbn [set_pass]. rewrite E, S. reflexivity.
+Qed.
+
+Lemma perm_count : forall l1 l2 : list Z,
+  (forall x, count_occ Z.eq_dec l1 x = count_occ Z.eq_dec l2 x) -> Permutation l1 l2.
+Proof. intros l1 l2 H. apply (Permutation_count_occ Z.eq_dec). exact H. Qed.
+
+(* the DigestResult [r] accounts for the processed items [l] *)
+Lemma accounts_nil : forall cfg, accounts cfg [] dres0.
+Proof. intros cfg. split; reflexivity. Qed.
+
+Lemma accounts_snoc : forall cfg l r it r',
+  accounts cfg l r ->
+  d_disposed r' = d_disposed r + (if raises cfg it then 0 else 1) ->
+  d_errors r' = (if raises cfg it then [it_id it] else []) ++ d_errors r ->
+  accounts cfg (l ++ [it]) r'.
+Proof.
+  intros cfg l r it r' [A1 A2] D E. unfold accounts. rewrite !filter_app. cbn [filter].
+  rewrite D, E, A1. unfold lenZ, ids in *. rewrite !app_length, map_app, <- A2.
+  destruct (raises cfg it); cbn [negb List.length map app rev]; split; try lia; try reflexivity.
+  - rewrite app_nil_r. reflexivity.
+Qed.
+
+(* ---- the invariant of the interleaved semantics ----------------------- *)
+
+Definition fated_as (cfg : config) (s : state) (it : item) : Prop :=
+  In (it, pass_fate cfg it) (g_fates s).
+
+Record CInv (cfg : config) (cs : cstate) : Prop := mkCInv {
+  ci_inv : Inv cfg (queue (c_base cs) ++ inflight cs) (c_base cs);
+  ci_bin : forall ps, In ps (c_open cs) -> binok (c_base cs) (d_recycled (p_res ps));
+  ci_rep : Permutation (reported_ids cs) (ids (with_fate Reported (c_base cs)));
+  ci_done : forall taken r, In (taken, r) (c_done cs) ->
+      accounts cfg taken r /\ forall it, In it taken -> fated_as cfg (c_base cs) it;
+  ci_open : forall ps, In ps (c_open cs) ->
+      p_todo ps <> [] /\
+      exists pre, p_taken ps = pre ++ p_todo ps /\ accounts cfg pre (p_res ps) /\
+                  forall it, In it pre -> fated_as cfg (c_base cs) it
+}.
+
+Lemma cinit_inv : forall cfg, CInv cfg cinit.
+Proof.
+  intros cfg. constructor; cbn.
+  - apply init_inv.
+  - intros ps [].
+  - constructor.
+  - intros taken r [].
+  - intros ps [].
+Qed.
+
+(* everything except ci_inv and ci_rep is stable when fates are only added *)
+Lemma CInv_grow : forall cfg cs s' new,
+  grows (c_base cs) s' new ->
+  CInv cfg cs ->
+  (forall ps, In ps (c_open cs) -> binok s' (d_recycled (p_res ps))) /\
+  (forall taken r, In (taken, r) (c_done cs) ->
+      accounts cfg taken r /\ forall it, In it taken -> fated_as cfg s' it) /\
+  (forall ps, In ps (c_open cs) ->
+      p_todo ps <> [] /\
+      exists pre, p_taken ps = pre ++ p_todo ps /\ accounts cfg pre (p_res ps) /\
+                  forall it, In it pre -> fated_as cfg s' it).
+Proof.
+  intros cfg cs s' new G [I B R D O]. split; [|split].
+  - intros ps H. eapply binok_mono; [|apply B; exact H]. intros x Hx. eapply grows_mono; eassumption.
+  - intros taken r H. destruct (D _ _ H) as [A F]. split; [exact A|].
+    intros it Hit. unfold fated_as. eapply grows_mono; [exact G|apply F; exact Hit].
+  - intros ps H. destruct (O _ H) as (N & pre & E & A & F). split; [exact N|].
+    exists pre. split; [exact E|split; [exact A|]].
+    intros it Hit. unfold fated_as. eapply grows_mono; [exact G|apply F; exact Hit].
+Qed.
+
+Lemma step_grows : forall cfg s o,
+  exists new, grows s (fst (step cfg s o)) new /\
+    (norep new \/ exists k, o = DigestOp k).
+Proof.
+  intros cfg s o. destruct o; cbn [step].
+  - destruct (ingest_grows cfg t (now s + off) o s) as (n & G & N). exists n; auto.
+  - destruct (ingest_grows cfg FailedOp (now s) o s) as (n & G & N). exists n; auto.
+  - destruct (ingest_grows cfg Toxic (now s) o s) as (n & G & N). exists n; auto.
+  - pose proof (digest_grows cfg false k s) as H. cbv zeta in H.
+    destruct (digest cfg false k s) as [s' r]. destruct H as (G & _). cbn [fst].
+    eexists. split; [exact G|right; eauto].
+  - destruct (autophagy_grows cfg s) as (n & G & N).
+    destruct (autophagy cfg s) as [s' m]. exists n; auto.
+  - exists []. cbn [fst]. split; [reflexivity|left; constructor].
+Qed.
+
+Lemma with_fate_rev_dfate : forall cfg items,
+  ids (map fst (filter (fun p : item * fate => fate_eqb (snd p) Reported)
+                       (rev (map (fun it => (it, dfate cfg false it)) items)))) =
+  rev (ids (filter (raises cfg) items)).
+Proof.
+  intros cfg. induction items as [|it items IH]; [reflexivity|].
+  cbn [map rev]. rewrite filter_app, map_app. unfold ids in *. rewrite map_app, IH.
+  cbn [filter snd]. unfold dfate. destruct (raises cfg it); cbn [fate_eqb map fst rev app].
+  - reflexivity.
+  - rewrite app_nil_r. reflexivity.
+Qed.
+
+Lemma in_rev_dfate : forall cfg items it,
+  In it items -> In (it, pass_fate cfg it) (rev (map (fun it => (it, dfate cfg false it)) items)).
+Proof.
+  intros cfg items it H. apply in_rev. rewrite rev_involutive.
+  apply in_map_iff. exists it. split; [reflexivity|exact H].
+Qed.
+
+Lemma catomic_inv : forall cfg cs o, CInv cfg cs -> CInv cfg (fst (catomic cfg o cs)).
+Proof.
+  intros cfg cs o CI. unfold catomic.
+  pose proof (step_inv_fr cfg (c_base cs) o (inflight cs) (ci_inv _ _ CI)) as I'.
+  destruct (step_grows cfg (c_base cs) o) as (new & G & N).
+  destruct (CInv_grow cfg cs _ new G CI) as (B' & D' & O').
+  destruct (step cfg (c_base cs) o) as [s' r] eqn:S. cbn [fst] in *.
+  destruct o as [t off out|out|out|k| |d0]; cbn [step] in S;
+    try (inversion S; subst s' r; clear S;
+         destruct N as [N|[k0 Hk]]; [|discriminate];
+         constructor; cbn [c_base c_open c_done]; try assumption;
+         unfold reported_ids; cbn [c_base c_open c_done];
+         rewrite (grows_rep_same _ _ _ G N); apply (ci_rep _ _ CI)).
+  - (* digest(k), atomic *)
+    pose proof (digest_grows cfg false k (c_base cs)) as H. cbv zeta in H.
+    destruct (digest cfg false k (c_base cs)) as [s1 r1]. inversion S; subst s' r; clear S.
+    destruct H as (G1 & Dd & E).
+    constructor; cbn [c_base c_open c_done taken_by]; try assumption.
+    + unfold reported_ids; cbn [c_base c_open c_done flat_map snd].
+      unfold with_fate. rewrite G1, filter_app, map_app. unfold ids at 1. rewrite map_app.
+      fold (ids (map fst (filter (fun p : item * fate => fate_eqb (snd p) Reported)
+                           (rev (map (fun it => (it, dfate cfg false it)) (to_process k (queue (c_base cs)))))))).
+      rewrite with_fate_rev_dfate, <- E, <- app_assoc.
+      apply Permutation_app_head. apply (ci_rep _ _ CI).
+    + intros taken r [X|X]; [|apply D'; exact X]. inversion X; subst taken r. split.
+      * split; [exact Dd|]. rewrite E, rev_involutive. reflexivity.
+      * intros it Hit. unfold fated_as. rewrite G1. apply in_or_app; left. apply in_rev_dfate; exact Hit.
+Qed.
+
+Lemma finish_inv : forall cfg live s r,
+  Inv cfg live s -> binok s (d_recycled r) -> Inv cfg live (finish s r).
+Proof.
+  intros cfg live s r [P1 P2 P3 P4 P5 P6 P7 P8 P9] B. unfold finish.
+  constructor; try assumption.
+  cbn [bin set_bin]. intros k v Hin.
+  destruct (merge_in _ _ _ _ Hin) as [E|E]; [apply (B k v)|apply (P9 k v)]; exact E.
+Qed.
+
+Lemma cbegin_inv : forall cfg p k cs, CInv cfg cs -> CInv cfg (fst (cbegin cfg p k cs)).
+Proof.
+  intros cfg p k cs CI. unfold cbegin.
+  destruct (find_pass p (c_open cs)); [exact CI|].
+  set (s := c_base cs).
+  destruct (take_split k (queue s)) as [Hsplit _].
+  pose proof (ci_inv _ _ CI) as I. fold s in I.
+  destruct (to_process k (queue s)) as [|it items] eqn:T; cbn [fst].
+  - (* nothing queued: the call returns at once *)
+    cbn [app] in Hsplit.
+    assert (G : grows s (finish (set_queue s (after_take k (queue s))) dres0) []) by reflexivity.
+    destruct (CInv_grow cfg cs _ [] G CI) as (B' & D' & O').
+    constructor; cbn [c_base c_open c_done]; try assumption.
+    + unfold inflight; cbn [c_open]. cbn [finish queue set_bin set_queue]. rewrite Hsplit.
+      apply (Inv_same cfg _ s); [reflexivity..|exact I].
+    + unfold reported_ids; cbn [c_base c_open c_done flat_map snd d_errors dres0 app].
+      rewrite (grows_rep_same _ _ _ G (Forall_nil _)). apply (ci_rep _ _ CI).
+    + intros taken r [X|X]; [|apply D'; exact X]. inversion X; subst. split; [apply accounts_nil|intros it []].
+  - (* the thread is inside the digester of its first item *)
+    set (s0 := set_queue s (after_take k (queue s))).
+    assert (G : grows s s0 []) by reflexivity.
+    destruct (CInv_grow cfg cs _ [] G CI) as (B' & D' & O').
+    constructor; cbn [c_base c_open c_done]; try assumption.
+    + unfold inflight; cbn [c_open flat_map p_todo]. fold (inflight cs). cbn [queue s0 set_queue].
+      apply (Inv_same cfg _ s); [reflexivity..|].
+      eapply Inv_live_perm; [|exact I]. rewrite <- Hsplit at 1. rewrite <- !app_assoc.
+      apply Permutation_app_swap_app.
+    + intros ps [<-|H]; [intros k0 v []|apply B'; exact H].
+    + unfold reported_ids; cbn [c_base c_open c_done flat_map p_res d_errors dres0 app].
+      rewrite (grows_rep_same _ _ _ G (Forall_nil _)). apply (ci_rep _ _ CI).
+    + intros ps [<-|H]; [|apply O'; exact H]. cbn [p_todo p_taken p_res]. split; [discriminate|].
+      exists []. split; [reflexivity|split; [apply accounts_nil|intros x []]].
+Qed.
+
+Lemma count_perm : forall (l1 l2 : list Z) x,
+  Permutation l1 l2 -> count_occ Z.eq_dec l1 x = count_occ Z.eq_dec l2 x.
+Proof. intros l1 l2 x H. apply (Permutation_count_occ Z.eq_dec). exact H. Qed.
+
+Lemma cpstep_inv : forall cfg p cs, CInv cfg cs -> CInv cfg (fst (cpstep cfg p cs)).
+Proof.
+  intros cfg p cs CI. unfold cpstep.
+  destruct (find_pass p (c_open cs)) as [ps|] eqn:F; [|exact CI].
+  destruct (find_pass_split _ _ _ F) as (l1 & l2 & Hopen & Hset).
+  destruct (p_todo ps) as [|it rest] eqn:Todo; [exact CI|].
+  set (s := c_base cs).
+  assert (Hps : In ps (c_open cs)) by (rewrite Hopen; apply in_or_app; right; left; reflexivity).
+  pose proof (ci_inv _ _ CI) as I. fold s in I.
+  pose proof (ci_bin _ _ CI ps Hps) as Bps. fold s in Bps.
+  destruct (ci_open _ _ CI ps Hps) as (_ & pre & Htaken & Apre & Fpre). fold s in Fpre.
+  set (fl := flat_map p_todo).
+  assert (Hinfl : inflight cs = fl l1 ++ (it :: rest) ++ fl l2).
+  { unfold inflight. rewrite Hopen. unfold fl. rewrite flat_map_app. cbn [flat_map]. rewrite Todo. reflexivity. }
+  assert (I0 : Inv cfg (it :: (queue s ++ fl l1 ++ rest ++ fl l2)) s).
+  { eapply Inv_live_perm; [|exact I]. rewrite Hinfl.
+    cbn [app]. rewrite (app_assoc (queue s) (fl l1) (it :: rest ++ fl l2)).
+    rewrite (app_assoc (queue s) (fl l1) (rest ++ fl l2)). symmetry. apply Permutation_middle. }
+  destruct (digest_item cfg false it s (p_res ps)) as [s1 r1] eqn:D.
+  destruct (digest_item_inv _ _ _ _ _ _ _ _ D I0 Bps) as (I1 & B1 & Q1).
+  destruct (digest_item_fates _ _ _ _ _ _ _ D) as (F1 & Dd & E).
+  assert (G : grows s s1 [(it, dfate cfg false it)]) by exact F1.
+  destruct (CInv_grow cfg cs _ _ G CI) as (B' & D' & O').
+  assert (Hit : fated_as cfg s1 it) by (unfold fated_as; rewrite F1; left; reflexivity).
+  assert (Apre' : accounts cfg (pre ++ [it]) r1) by (eapply accounts_snoc; eassumption).
+  assert (Fpre' : forall x, In x (pre ++ [it]) -> fated_as cfg s1 x).
+  { intros x Hx. apply in_app_or in Hx. destruct Hx as [Hx|[<-|[]]]; [|exact Hit].
+    unfold fated_as. eapply grows_mono; [exact G|apply Fpre; exact Hx]. }
+  assert (Hsub : forall x, In x (l1 ++ l2) -> In x (c_open cs)).
+  { intros x Hx. rewrite Hopen. apply in_app_or in Hx. apply in_or_app.
+    destruct Hx; [left|right; right]; assumption. }
+  set (ferr := flat_map (fun ps0 : pass => d_errors (p_res ps0))).
+  set (derr := flat_map (fun d : list item * dres => d_errors (snd d)) (c_done cs)).
+  set (e := if raises cfg it then [it_id it] else []) in *.
+  assert (Hrep1 : ids (with_fate Reported s1) = e ++ ids (with_fate Reported s)).
+  { unfold with_fate. rewrite F1. cbn [filter snd]. unfold e, dfate.
+    destruct (raises cfg it); cbn [fate_eqb map fst ids app]; reflexivity. }
+  assert (Hold : forall x, count_occ Z.eq_dec (derr ++ ferr l1 ++ d_errors (p_res ps) ++ ferr l2) x =
+                           count_occ Z.eq_dec (ids (with_fate Reported s)) x).
+  { intros x. apply count_perm. pose proof (ci_rep _ _ CI) as R. unfold reported_ids in R.
+    rewrite Hopen, flat_map_app in R. cbn [flat_map] in R. exact R. }
+  destruct rest as [|it2 rest'].
+  - (* the last item: the call returns *)
+    cbn [fst]. rewrite (Hset None). cbn [app].
+    constructor; cbn [c_base c_open c_done].
+    + cbn [finish queue set_bin]. rewrite Q1. unfold inflight; cbn [c_open]. fold fl. unfold fl at 1. rewrite flat_map_app. fold fl.
+      apply finish_inv; [|exact B1]. cbn [app] in I1. exact I1.
+    + intros ps0 H. apply (B' ps0). apply Hsub; exact H.
+    + unfold reported_ids; cbn [c_base c_open c_done flat_map snd]. fold derr. fold ferr.
+      change (with_fate Reported (finish s1 r1)) with (with_fate Reported s1). rewrite Hrep1, E.
+      unfold ferr at 1. rewrite flat_map_app. fold ferr.
+      apply perm_count. intros x. specialize (Hold x). rewrite !count_occ_app in *. lia.
+    + intros taken r [X|X].
+      * inversion X; subst taken r. rewrite Htaken, Todo. split; [exact Apre'|exact Fpre'].
+      * apply (D' taken r X).
+    + intros ps0 H. apply (O' ps0). apply Hsub; exact H.
+  - (* on to the digester of the next item *)
+    cbn [fst]. rewrite (Hset (Some (mkPass p (it2 :: rest') r1 (p_taken ps)))).
+    constructor; cbn [c_base c_open c_done].
+    + rewrite Q1. unfold inflight; cbn [c_open]. fold fl. unfold fl at 1.
+      rewrite flat_map_app. cbn [flat_map app p_todo]. fold fl. exact I1.
+    + intros ps0 H. apply in_app_or in H. destruct H as [H|[<-|H]].
+      * apply (B' ps0). apply Hsub. apply in_or_app; left; exact H.
+      * exact B1.
+      * apply (B' ps0). apply Hsub. apply in_or_app; right; exact H.
+    + unfold reported_ids; cbn [c_base c_open c_done]. fold derr. fold ferr. rewrite Hrep1.
+      unfold ferr at 1. rewrite flat_map_app. cbn [flat_map app p_res]. fold ferr. rewrite E.
+      apply perm_count. intros x. specialize (Hold x). rewrite !count_occ_app in *. lia.
+    + exact D'.
+    + intros ps0 H. apply in_app_or in H. destruct H as [H|[<-|H]].
+      * apply (O' ps0). apply Hsub. apply in_or_app; left; exact H.
+      * cbn [p_todo p_taken p_res]. split; [discriminate|].
+        exists (pre ++ [it]). split; [rewrite Htaken, Todo, <- app_assoc; reflexivity|split; [exact Apre'|exact Fpre']].
+      * apply (O' ps0). apply Hsub. apply in_or_app; right; exact H.
+Qed.
+
+Lemma cstep_inv : forall cfg cs o, CInv cfg cs -> CInv cfg (fst (cstep cfg cs o)).
+Proof.
+  intros cfg cs o CI. destruct o; cbn [cstep].
+  - apply catomic_inv; exact CI.
+  - apply cbegin_inv; exact CI.
+  - apply cpstep_inv; exact CI.
+Qed.
+
+Lemma crun_from_inv : forall cfg ops cs, CInv cfg cs -> CInv cfg (crun_from cfg cs ops).
+Proof.
+  unfold crun_from. induction ops as [|o ops IH]; intros cs CI; cbn [fold_left]; [exact CI|].
+  apply IH. apply cstep_inv. exact CI.
+Qed.
+
+Lemma crun_inv : forall cfg ops, CInv cfg (crun cfg ops).
+Proof. intros. unfold crun. apply crun_from_inv. apply cinit_inv. Qed.
+
+(* ---- conservation with calls in progress ------------------------------- *)
+
+Definition overlap_conservation_stmt (cfg : config) (ops : list cop) : Prop :=
+  let cs := crun cfg ops in
+  let s := c_base cs in
+  Permutation (g_all s) (queue s ++ inflight cs ++ map fst (g_fates s)) /\
+  NoDup (ids (queue s) ++ ids (inflight cs) ++ ids (map fst (g_fates s))) /\
+  (forall it f it' f', In (it, f) (g_fates s) -> In (it', f') (g_fates s) ->
+                       it_id it = it_id it' -> it = it' /\ f = f') /\
+  n_ingested s = lenZ (g_all s) /\
+  n_digested s = nfate Digested s + nfate EmergOk s /\
+  n_ingested s = qlen s + lenZ (inflight cs) + n_digested s + nfate Reported s
+                 + nfate AutoDiscarded s + nfate EmergFail s + nfate Expired s.
+
+Lemma overlap_conservation_proof : forall cfg ops, overlap_conservation_stmt cfg ops.
+Proof.
+  intros cfg ops. unfold overlap_conservation_stmt. cbv zeta.
+  pose proof (ci_inv _ _ (crun_inv cfg ops)) as I.
+  set (cs := crun cfg ops) in *. set (s := c_base cs) in *.
+  pose proof (inv_perm _ _ _ I) as P1. fold (fated s). rewrite <- app_assoc in P1.
+  split; [exact P1|].
+  split.
+  { pose proof (Inv_nodup_live _ _ _ I) as H. unfold ids in *. rewrite map_app, <- app_assoc in H. exact H. }
+  split; [intros; eapply fate_unique; eauto|].
+  split; [apply (inv_ning _ _ _ I)|].
+  split; [apply (inv_ndig _ _ _ I)|].
+  rewrite (inv_ning _ _ _ I), (inv_ndig _ _ _ I).
+  pose proof (Permutation_length P1) as L. rewrite !app_length in L.
+  unfold fated in L. rewrite map_length in L.
+  pose proof (nfate_total s) as T. unfold lenZ, qlen in *. lia.
+Qed.
+
+(* ---- every digestion error is reported exactly once -------------------- *)
+
+Lemma NoDup_map_filter {A B} (g : A -> B) (f : A -> bool) : forall l,
+  NoDup (map g l) -> NoDup (map g (filter f l)).
+Proof.
+  induction l as [|x l IH]; intros H; cbn; [constructor|].
+  cbn in H. inversion H as [|? ? Hn Hnd]; subst.
+  destruct (f x); cbn; [|apply IH; exact Hnd].
+  constructor; [|apply IH; exact Hnd]. intros Hin. apply Hn.
+  apply in_map_iff in Hin. destruct Hin as (y & E & Hy). apply filter_In in Hy.
+  apply in_map_iff. exists y. split; [exact E|apply Hy].
+Qed.
+
+Definition reported_once_stmt (cfg : config) (ops : list cop) : Prop :=
+  let cs := crun cfg ops in
+  Permutation (reported_ids cs) (ids (with_fate Reported (c_base cs))) /\
+  NoDup (reported_ids cs) /\
+  (forall i, (count_occ Z.eq_dec (reported_ids cs) i =
+              if in_dec Z.eq_dec i (ids (with_fate Reported (c_base cs))) then 1 else 0)%nat).
+
+Lemma reported_once_proof : forall cfg ops, reported_once_stmt cfg ops.
+Proof.
+  intros cfg ops. unfold reported_once_stmt. cbv zeta.
+  pose proof (crun_inv cfg ops) as CI. set (cs := crun cfg ops) in *.
+  pose proof (ci_rep _ _ CI) as R. pose proof (ci_inv _ _ CI) as I.
+  assert (ND : NoDup (ids (with_fate Reported (c_base cs)))).
+  { pose proof (Inv_nodup_live _ _ _ I) as H. apply NoDup_app_r in H.
+    unfold ids, with_fate, fated in *. rewrite map_map in *. apply NoDup_map_filter. exact H. }
+  assert (ND' : NoDup (reported_ids cs)).
+  { eapply Permutation_NoDup; [apply Permutation_sym; exact R|exact ND]. }
+  split; [exact R|]. split; [exact ND'|].
+  intros i. destruct (in_dec Z.eq_dec i (ids (with_fate Reported (c_base cs)))) as [Hin|Hn].
+  - apply (proj1 (NoDup_count_occ' Z.eq_dec _) ND').
+    eapply Permutation_in; [apply Permutation_sym; exact R|exact Hin].
+  - apply count_occ_not_In. intros Hin. apply Hn. eapply Permutation_in; [exact R|exact Hin].
+Qed.
+
+(* ---- every returned DigestResult accounts for the items its call took -- *)
+
+Definition results_stmt (cfg : config) (ops : list cop) : Prop :=
+  let cs := crun cfg ops in
+  (forall taken r, In (taken, r) (c_done cs) ->
+     accounts cfg taken r /\
+     forall it, In it taken -> In (it, pass_fate cfg it) (g_fates (c_base cs))) /\
+  (forall ps, In ps (c_open cs) ->
+     p_todo ps <> [] /\
+     exists pre, p_taken ps = pre ++ p_todo ps /\ accounts cfg pre (p_res ps) /\
+       forall it, In it pre -> In (it, pass_fate cfg it) (g_fates (c_base cs))).
+
+Lemma results_proof : forall cfg ops, results_stmt cfg ops.
+Proof.
+  intros cfg ops. unfold results_stmt. cbv zeta.
+  pose proof (crun_inv cfg ops) as CI. split.
+  - apply (ci_done _ _ CI).
+  - apply (ci_open _ _ CI).
+Qed.
+
+(* ---- sensitive items ---------------------------------------------------- *)
+
+Definition overlap_toxic_stmt (cfg : config) (ops : list cop) : Prop :=
+  let cs := crun cfg ops in
+  let s := c_base cs in
+  (forall k v it, In (k, v) (bin s) -> In it (g_all s) -> it_id it = v -> it_type it <> Toxic) /\
+  (forall ps k v it, In ps (c_open cs) -> In (k, v) (d_recycled (p_res ps)) ->
+                     In it (g_all s) -> it_id it = v -> it_type it <> Toxic) /\
+  (forall i, (count_occ Z.eq_dec (toxlog s) i <= 1)%nat) /\
+  (forall i, In i (toxlog s) ->
+     has_cb cfg = true /\ exists it, In it (g_all s) /\ it_id it = i /\ it_type it = Toxic) /\
+  (forall it, In it (queue s ++ inflight cs) -> ~ In (it_id it) (toxlog s)) /\
+  (forall it f, In (it, f) (g_fates s) -> it_type it = Toxic -> has_cb cfg = true ->
+     count_occ Z.eq_dec (toxlog s) (it_id it) = if fate_eqb f Expired then 0%nat else 1%nat).
+
+Lemma binok_not_toxic : forall cfg live s b k v it,
+  Inv cfg live s -> binok s b -> In (k, v) b -> In it (g_all s) -> it_id it = v -> it_type it <> Toxic.
+Proof.
+  intros cfg live s b k v it I B Hb Hit Hid.
+  destruct (B k v Hb) as (it' & f & H1 & H2 & H3).
+  assert (it = it').
+  { eapply (NoDup_map_inj it_id); [apply (inv_nodup _ _ _ I)|exact Hit|eapply fated_in_all; eauto|congruence]. }
+  subst it'. exact H3.
+Qed.
+
+Lemma overlap_toxic_proof : forall cfg ops, overlap_toxic_stmt cfg ops.
+Proof.
+  intros cfg ops. unfold overlap_toxic_stmt. cbv zeta.
+  pose proof (crun_inv cfg ops) as CI. set (cs := crun cfg ops) in *.
+  pose proof (ci_inv _ _ CI) as I. set (s := c_base cs) in *.
+  pose proof (inv_tox_nodup _ _ _ I) as Hnd.
+  split; [intros k v it; apply (binok_not_toxic _ _ _ _ _ _ _ I (inv_bin _ _ _ I))|].
+  split; [intros ps k v it Hps; apply (binok_not_toxic _ _ _ _ _ _ _ I (ci_bin _ _ CI ps Hps))|].
+  split; [intros i; apply (proj1 (NoDup_count_occ Z.eq_dec _) Hnd)|].
+  split.
+  { intros i Hin. destruct (inv_tox_sound _ _ _ I i Hin) as (it & f & H1 & H2 & H3 & _ & H5).
+    split; [exact H5|]. exists it. split; [eapply fated_in_all; eauto|auto]. }
+  split.
+  { intros it Hq Hin. destruct (inv_tox_sound _ _ _ I _ Hin) as (it' & f & H1 & H2 & _).
+    eapply (live_not_fated _ _ _ it it' I Hq); [eapply in_fates_fated; exact H1|congruence]. }
+  intros it f Hf T C.
+  destruct (fate_eqb f Expired) eqn:E.
+  - apply fate_eqb_spec in E. subst f. apply count_occ_not_In. intros Hin.
+    destruct (inv_tox_sound _ _ _ I _ Hin) as (it' & f' & H1 & H2 & _ & H4 & _).
+    destruct (fate_unique _ _ _ _ _ _ _ I Hf H1 (eq_sym H2)) as [_ X]. congruence.
+  - assert (HE : f <> Expired) by (intros ->; cbn in E; discriminate).
+    apply (proj1 (NoDup_count_occ' Z.eq_dec _) Hnd).
+    eapply (inv_tox_complete _ _ _ I); eauto.
+Qed.
+
+(* ---- bounded queue ------------------------------------------------------ *)
+
+Lemma digest_item_queue : forall cfg auto it s r,
+  queue (fst (digest_item cfg auto it s r)) = queue s.
+Proof.
+  intros cfg auto it s r. unfold digest_item.
+  destruct (fate_item_facts cfg Digested (if auto then AutoDiscarded else Reported) it s) as (Hq & _).
+  destruct (fate_item cfg Digested (if auto then AutoDiscarded else Reported) it s) as [s1 pr].
+  cbn [fst] in Hq. destruct pr as [ks|]; cbn [fst]; [destruct (nonempty ks)|]; exact Hq.
+Qed.
+
+Lemma cstep_bounded : forall cfg cs o,
+  2 <= max_queue cfg -> qlen (c_base cs) <= max_queue cfg ->
+  qlen (c_base (fst (cstep cfg cs o))) <= max_queue cfg.
+Proof.
+  intros cfg cs o Hmax Hq. destruct o as [o|p k|p]; cbn [cstep].
+  - unfold catomic. pose proof (step_bounded cfg (c_base cs) o Hmax Hq) as H.
+    destruct (step cfg (c_base cs) o) as [s' r]. exact H.
+  - unfold cbegin. destruct (find_pass p (c_open cs)); [exact Hq|].
+    pose proof (after_take_le k (queue (c_base cs))) as L.
+    destruct (to_process k (queue (c_base cs))); cbn [fst c_base]; unfold qlen in *;
+      cbn [finish queue set_bin set_queue]; lia.
+  - unfold cpstep. destruct (find_pass p (c_open cs)) as [ps|]; [|exact Hq].
+    destruct (p_todo ps) as [|it rest]; [exact Hq|].
+    pose proof (digest_item_queue cfg false it (c_base cs) (p_res ps)) as Q.
+    destruct (digest_item cfg false it (c_base cs) (p_res ps)) as [s1 r1]. cbn [fst] in Q.
+    destruct rest; cbn [fst c_base]; unfold qlen in *; cbn [finish queue set_bin]; rewrite Q; exact Hq.
+Qed.
+
+Lemma overlap_queue_bounded_proof : forall cfg ops,
+  2 <= max_queue cfg -> qlen (c_base (crun cfg ops)) <= max_queue cfg.
+Proof.
+  intros cfg ops Hmax. unfold crun, crun_from.
+  assert (G : forall cs, qlen (c_base cs) <= max_queue cfg ->
+     qlen (c_base (fold_left (fun cs o => fst (cstep cfg cs o)) ops cs)) <= max_queue cfg).
+  { induction ops as [|o ops IH]; intros cs Hs; cbn [fold_left]; [exact Hs|].
+    apply IH. apply cstep_bounded; assumption. }
+  apply G. unfold qlen; cbn. lia.
+Qed.
+
+(* ---- the sequential model is the special case without overlap ---------- *)
+
+Lemma atomic_refines : forall cfg ops cs,
+  c_base (crun_from cfg cs (map Atomic ops)) = fold_left (fun s o => fst (step cfg s o)) ops (c_base cs) /\
+  c_open (crun_from cfg cs (map Atomic ops)) = c_open cs.
+Proof.
+  unfold crun_from. induction ops as [|o ops IH]; intros cs; cbn [map fold_left]; [split; reflexivity|].
+  destruct (IH (fst (cstep cfg cs (Atomic o)))) as [H1 H2]. rewrite H1, H2.
+  cbn [cstep]. unfold catomic. destruct (step cfg (c_base cs) o) as [s' r]. split; reflexivity.
+Qed.
+
+Lemma atomic_run : forall cfg ops,
+  c_base (crun cfg (map Atomic ops)) = run cfg ops /\ c_open (crun cfg (map Atomic ops)) = [].
+Proof. intros cfg ops. unfold crun, run. apply (atomic_refines cfg ops cinit). Qed.
+
+(* one digest pass, stepped without anything in between, is digest() *)
+Lemma pass_steps_loop : forall cfg p items it r s taken open0 done,
+  crun_from cfg (mkC s (mkPass p (it :: items) r taken :: open0) done)
+            (repeat (PassStep p) (S (List.length items))) =
+  let '(s', r') := digest_loop cfg false (it :: items) s r in
+  mkC (finish s' r') open0 ((taken, r') :: done).
+Proof.
+  intros cfg p. induction items as [|it2 items IH]; intros it r s taken open0 done.
+  - unfold crun_from. cbn [List.length repeat fold_left cstep]. unfold cpstep.
+    cbn [c_open find_pass p_id]. rewrite Z.eqb_refl. cbn [p_todo p_res c_base digest_loop].
+    destruct (digest_item cfg false it s r) as [s1 r1]. cbn [fst set_pass p_id c_open c_done p_taken].
+    rewrite Z.eqb_refl. reflexivity.
+  - unfold crun_from in *. cbn [List.length repeat fold_left]. cbn [cstep]. unfold cpstep at 2.
+    cbn [c_open find_pass p_id]. rewrite Z.eqb_refl. cbn [p_todo p_res c_base].
+    cbn [digest_loop]. destruct (digest_item cfg false it s r) as [s1 r1].
+    cbn [fst set_pass p_id c_open c_done p_taken]. rewrite Z.eqb_refl.
+    specialize (IH it2 r1 s1 taken open0 done). cbn [List.length repeat fold_left] in IH. exact IH.
+Qed.
+
+Lemma pass_uninterleaved : forall cfg p k cs,
+  find_pass p (c_open cs) = None ->
+  let n := List.length (to_process k (queue (c_base cs))) in
+  crun_from cfg cs (PassBegin p k :: repeat (PassStep p) n) =
+  mkC (fst (digest cfg false k (c_base cs))) (c_open cs)
+      ((to_process k (queue (c_base cs)), snd (digest cfg false k (c_base cs))) :: c_done cs).
+Proof.
+  intros cfg p k cs Hf n. unfold crun_from. cbn [fold_left cstep]. unfold cbegin. rewrite Hf.
+  unfold digest, n. destruct (to_process k (queue (c_base cs))) as [|it items].
+  - cbn [List.length repeat fold_left fst digest_loop snd]. reflexivity.
+  - cbn [fst]. pose proof (pass_steps_loop cfg p items it dres0 (set_queue (c_base cs) (after_take k (queue (c_base cs))))
+                                            (it :: items) (c_open cs) (c_done cs)) as H.
+    unfold crun_from in H. cbn [List.length]. rewrite H. unfold dres0.
+    destruct (digest_loop cfg false (it :: items) (set_queue (c_base cs) (after_take k (queue (c_base cs)))) (mkDres 0 [] [])) as [s' r'].
+    reflexivity.
+Qed.
+
+Lemma cstep_total : forall cfg cs o, exists cs' r, cstep cfg cs o = (cs', r).
+Proof. intros cfg cs o. destruct (cstep cfg cs o) as [cs' r]. eauto. Qed.
 
 (* ====================================================================== *)
 (* Part 2: the one-lock machine                                             *)
